@@ -13,13 +13,14 @@ def run_fragment(prop, level, extra_bounds, extra_obligations=None, note=None):
 
     def obl(S_unused):
         S = stdlemmas.session()
-        o, f = stdlemmas.obligations(S, radices=radices, max_digits=digits)
+        # radix 36 with three digits (36^3 multiplier chains) does not finish within the per-query time limit
+        o, f = stdlemmas.obligations(S, radices=radices, max_digits=digits, digits_for={36: 2})
         if extra_obligations:
             o2, f2 = extra_obligations()
             o, f = o + o2, f + f2
         return o, f
     ev.cov["bounds"] = [f"abs: every Value variant, all i64 / non-NaN f64 (no bound)",
-                        f"format_radix: radix in {radices}, all i64 x with |x| < radix^{digits} (digit loop unrolled {digits}x) PLUS the entry path for every i64 (sign handling, incl. i64::MIN); larger |x| end in 'outside the bound' paths",
+                        f"format_radix: radix in {radices}, all i64 x with |x| < radix^{digits} (digit loop unrolled {digits}x; radix 36: 2 digits in both tiers) PLUS the entry path for every i64 (sign handling, incl. i64::MIN); larger |x| end in 'outside the bound' paths",
                         "mod: structural (is try_rem, which C11 covers)"] + extra_bounds
     ev.cov["trusted_base"] = ["rustc nightly -Zunpretty=mir of the stdlib-base build", "MIR semantics + std models in lib/mirse (i64::abs/wrapping_abs/unsigned_abs, char::from_digit, VecDeque<char> as a list)", "z3"]
     ev.cov["checker_cmd"] = f"python3-vt /verif/lib/check.py {prop}"
